@@ -142,7 +142,9 @@ def serialised (fs : List Field) : List Field :=
 /-- conditions on one declaration -/
 def declOk (env : Env) (w : Wrappers) (d : Decl) : Bool :=
   match d.body with
-  | .named u => shapeOk u && noUnion env u
+  | .named u =>
+    shapeOk u && noUnion env u &&
+    (match u with | .basic _ .int => true | _ => d.name != refName env u)
   | .enum _ _ _ _ => true
   | .struct fs _ _ =>
     !fs.isEmpty &&
@@ -172,7 +174,7 @@ structure Fragment (env : Env) (w : Wrappers) (tenv : List (String × TsType)) (
 /-- the same, as a decidable check (what the driver evaluates) -/
 def fragmentB (env : Env) (w : Wrappers) (tenv : List (String × TsType)) (ds : List Decl) : Bool :=
   w.nameds.isEmpty &&
-  ds.all (fun d => match env.find? d.q with | some d' => d'.q == d.q && d'.name == d.name | none => false) &&
+  ds.all (fun d => decide (env.find? d.q = some d)) &&
   ds.all (fun d => ((childTys d).flatMap Ty.refs).all fun q => ds.any fun d' => d'.q == q) &&
   ds.all (declOk env w) &&
   ds.all (fun d => (needed env d).all fun p => lookupIs tenv p.1 p.2)
